@@ -367,6 +367,103 @@ func c08(c *core.Ctx) {
 	// with a non-OK status that was put on the wire first (C14/R5)
 	c.Borrow("C14", map[string]string{"R3": "R4", "R5": "R5"}, c14)
 
+	// ---------------------------------------------------------------- R9
+	if c.Rule("R9", "unary over HTTP: the handler's response is encoded and written only where it was found present — the nil-response predicate (typed nil included) answered false for it; a handler that returns neither a response nor an error is answered with an error, whatever the codec would make of a nil message", 1) {
+		n := 0
+		for _, hc := range httpHandlerClosures(p) {
+			if hc.Stream {
+				continue
+			}
+			for _, hs := range handlerInvocations(hc.Fn) {
+				if k, _ := isHandlerInvocation(&hs.Call); k != "unary-handler" {
+					continue
+				}
+				isResp := func(v ssa.Value) bool {
+					return core.OriginIs(v, func(o ssa.Value) bool {
+						cr, idx, ok := core.CallResult(o)
+						return ok && cr == hs && idx == 0
+					})
+				}
+				for _, mc := range core.CallsIn(hc.Fn, func(call *ssa.Call, ci core.CallInfo) bool {
+					if !ci.Iface || ci.Name != "Marshal" {
+						return false
+					}
+					for _, a := range core.Args(&call.Call) {
+						if isResp(a) {
+							return true
+						}
+					}
+					return false
+				}) {
+					n++
+					key := core.FuncName(hc.Fn) + ":response-encoded-only-if-present"
+					var preds []*ssa.Function
+					notNil := func(f core.Fact) bool {
+						if f.Op != token.ILLEGAL || !f.Neg {
+							return false
+						}
+						ic, ok := f.X.(*ssa.Call)
+						if !ok || len(ic.Call.Args) != 1 || !isResp(ic.Call.Args[0]) {
+							return false
+						}
+						if pf := ic.Call.StaticCallee(); pf != nil && pf.Blocks != nil {
+							dup := false
+							for _, q := range preds {
+								if q == pf {
+									dup = true
+								}
+							}
+							if !dup {
+								preds = append(preds, pf)
+							}
+						}
+						return true
+					}
+					ok := core.GuardedBy(mc, notNil)
+					if !ok {
+						// "if err == nil && isNil(resp) { err = <error> }; if err != nil { …; return }": the encode is
+						// dominated by err == nil, and err can be nil there only along φ-edges on which the predicate
+						// answered false
+						for _, ef := range core.DominatingFacts(mc) {
+							f := ef.Fact
+							if f.Op != token.EQL || !core.IsNilConst(f.Y) || !core.IsErrorType(f.X.Type()) {
+								continue
+							}
+							all, some := true, false
+							for _, l := range core.ErrLeaves(f.X, ef.If) {
+								if l.Class == core.ErrNonNil {
+									continue
+								}
+								lv := l.V
+								if core.LeafGuarded(l, func(g core.Fact) bool {
+									return g.Op == token.NEQ && core.IsNilConst(g.Y) && (g.X == lv || core.SameVal(g.X, lv))
+								}) {
+									continue // on this edge the value is known non-nil: it cannot be the nil that was tested
+								}
+								some = true
+								if !core.LeafGuarded(l, notNil) {
+									all = false
+								}
+							}
+							if all && some {
+								ok = true
+							}
+						}
+					}
+					c.Check(ok, key, mc.Pos(), "the response is encoded only where the nil-response predicate answered false", "the unary HTTP handler encodes and writes the handler's response without having checked that there is one: a handler returning a typed nil pointer (and no error) is answered with whatever the codec makes of a nil message — the JSON codec renders an empty message, i.e. success carrying a fabricated response")
+					for _, pf := range preds {
+						why := nilPredicateSound(pf)
+						c.Check(why == "", core.FuncName(pf)+":nil-predicate", pf.Pos(), "true for the nil interface and for a nil pointer inside the interface", "the predicate that decides 'the handler returned no response' "+why)
+					}
+				}
+			}
+		}
+		if n == 0 {
+			c.Fail("httpgrpc:unary-response-encode", token.NoPos, "ANCHOR-MISSING: no encoding of the unary handler's response found in the HTTP handler")
+		}
+		c.EndRule()
+	}
+
 	// ---------------------------------------------------------------- R6, R7 (shared)
 	// the second-request probe lives in the streaming handler's receive path only: a method that takes a single
 	// request is reached with the stream framing only through that handler (C11/R3: each kind of handler accepts its
@@ -963,7 +1060,7 @@ func nilPredicateSound(fn *ssa.Function) string {
 		}
 		if b, ok := core.ConstBool(r.Results[0]); ok && b {
 			if core.GuardedBy(r, func(f core.Fact) bool {
-				return f.Op == token.EQL && core.IsNilConst(f.Y) && core.ResolveFree(core.Strip(f.X)) == ssa.Value(par)
+				return f.Op == token.EQL && core.IsNilConst(f.Y) && (core.Strip(f.X) == ssa.Value(par) || core.ResolveFree(core.Strip(f.X)) == ssa.Value(par))
 			}) {
 				trueOnNil = true
 			}
@@ -975,7 +1072,9 @@ func nilPredicateSound(fn *ssa.Function) string {
 	isValueOfPar := func(v ssa.Value) bool {
 		return core.OriginIs(v, func(o ssa.Value) bool {
 			call, ok := core.Strip(o).(*ssa.Call)
-			return ok && core.InfoOf(&call.Call).Is("reflect.ValueOf") && len(call.Call.Args) == 1 && core.OriginIs(call.Call.Args[0], func(a ssa.Value) bool { return core.ResolveFree(core.Strip(a)) == ssa.Value(par) })
+			return ok && core.InfoOf(&call.Call).Is("reflect.ValueOf") && len(call.Call.Args) == 1 && core.OriginIs(call.Call.Args[0], func(a ssa.Value) bool {
+				return core.Strip(a) == ssa.Value(par) || core.ResolveFree(core.Strip(a)) == ssa.Value(par)
+			})
 		})
 	}
 	var isNilCall *ssa.Call
